@@ -1,11 +1,12 @@
 /* Driver for C15 (custom data sources coalesce without loss and never re-enter their handler).
  *
  * Seeded random executions of one DISPATCH_SOURCE_TYPE_DATA_ADD / DATA_OR / DATA_REPLACE source
- * (kind drawn per execution) on a serial / concurrent / global default target queue (argument):
+ * (the three kinds in rotation) on a serial / concurrent / global default target queue (argument):
  * 2-4 merging threads, merges issued from inside the event handler and from items running on the
  * target queue, suspension windows (merges continue inside them), merges before and racing with
  * activation, a handler that is sometimes slow, schedule perturbation inside the library's
- * atomicity windows.  Everything that touches ds_pending_data, the source's dq_state,
+ * atomicity windows, and a "sniper" thread that merges exactly when a drainer is about to touch
+ * the source (steering of merge-vs-latch, merge-vs-unlock).  Everything that touches ds_pending_data, the source's dq_state,
  * dq_atomic_flags and du_state, and every API event, is recorded in one total order.
  *
  * At the end of an execution: stop merging, resume, wait until the source is at rest (decided on
@@ -30,7 +31,7 @@ enum { CLS_PD = 1, CLS_ST = 2, CLS_FL = 3, CLS_DU = 4 };
 typedef struct { unsigned long v; uint64_t call_seq, ret_seq; } merge_t;
 typedef struct { unsigned long d; uint64_t start_seq, end_seq; int tid; } deliv_t;
 
-static int NT = 3, g_execs = 10, g_ops = 10, g_target = T_GLOBAL;
+static int NT = 3, g_execs = 10, g_ops = 10, g_target = T_GLOBAL, g_nosteer;
 static uint64_t g_seed;
 static dispatch_source_t g_ds;
 static dispatch_source_refs_t g_dr;
@@ -51,6 +52,9 @@ static size_t g_first_rec;           /* index of the first record of this execut
  * previous (cancelled, unrecorded) source when recording resumes - its accesses are not ours */
 #define MAXE 4096
 static struct { uintptr_t ds, ds_end, dr, dr_end; } g_range[MAXE];
+
+/* steering: a drain-side access of the source about to happen opens a window in which the sniper merges */
+static _Atomic int g_win_open, g_win_ack, g_snipe_budget, g_sniper_run;
 
 static void oracle_fail(const char *what, long a, long b)
 {
@@ -121,6 +125,45 @@ static void susp_window(void)
 	vrt_api("ResRet", g_obj, 0, 0, 0);
 }
 
+/* Exploration aid (exact steering of merge-vs-latch): consulted by the runtime before every traced
+ * access.  When the calling thread holds the source's drain lock (it is inside invoke2: before the
+ * pending-data loads, the latch exchange, the unlock / re-enqueue RMW), it sometimes stalls for up to
+ * ~2 ms and lets the sniper thread issue one merge exactly there - the atomicity windows the property
+ * is about.  Only delays threads at points where the kernel may preempt them; judges nothing. */
+static void steer(struct dispatch_verif_site_s *site, const volatile void *addr, int obj)
+{
+	(void)addr;
+	if (obj < 0 || !atomic_load(&g_sniper_run)) return;
+	dispatch_source_t ds = g_ds;
+	if (!ds || !_dq_state_drain_locked_by_self(*(volatile uint64_t *)&ds->dq_state)) return;
+	/* always in front of an exchange (the latch), one time in four elsewhere */
+	if (site->dvs_op[0] != 'x' && vrt_rand() % 4) return;
+	if (atomic_fetch_sub(&g_snipe_budget, 1) <= 0) return;
+	int ack0 = atomic_load(&g_win_ack);
+	atomic_store(&g_win_open, 1);
+	for (int i = 0; i < 200 && atomic_load(&g_win_ack) == ack0 && atomic_load(&g_sniper_run); i++) usleep(10);
+	atomic_store(&g_win_open, 0);
+}
+
+static void *sniper(void *arg)
+{
+	(void)arg; (void)vrt_tid();
+	for (int e = 0; e < g_execs; e++) {
+		pthread_barrier_wait(&g_bar);
+		while (atomic_load(&g_done_threads) < NT) {
+			if (atomic_exchange(&g_win_open, 0)) {
+				/* a REPLACE source gets a zero two times out of three: the payload the latch must skip */
+				do_merge(g_kind == K_REPLACE && vrt_rand() % 3 ? 0 : rand_value());
+				atomic_fetch_add(&g_win_ack, 1);
+			} else if (vrt_rand() % 8 == 0) usleep(20);
+			else sched_yield();
+		}
+		atomic_store(&g_sniper_run, 0);
+		pthread_barrier_wait(&g_bar);
+	}
+	return NULL;
+}
+
 static void *merger(void *arg)
 {
 	(void)arg; (void)vrt_tid();
@@ -182,7 +225,10 @@ static int followed_by_giveup(const vrt_rec_t *r)
 	for (size_t j = i + 1; j < n && j < i + 100000; j++) {
 		const vrt_rec_t *q = vrt_get(j);
 		if (q->tid != r->tid || (q->kind == VRT_ATOMIC && !in_range(q))) continue;
-		return q->kind == VRT_ATOMIC && q->site->dvs_op[0] == 'g';
+		/* the runtime attributes a give-up to the word its thread observed last: pair it with this
+		 * observation only if it was issued by the same C function (a give-up of a loop on some other,
+		 * untraced object would otherwise be taken for ours) */
+		return q->kind == VRT_ATOMIC && q->site->dvs_op[0] == 'g' && !strcmp(q->site->dvs_func, r->site->dvs_func);
 	}
 	return 0;
 }
@@ -331,6 +377,7 @@ int main(int argc, char **argv)
 	if (argc > 5) g_target = atoi(argv[5]);
 	if (argc > 6) NT = atoi(argv[6]);
 	if (argc > 7) g_ops = atoi(argv[7]);
+	if (argc > 8) g_nosteer = atoi(argv[8]);
 	if (g_execs > MAXE) g_execs = MAXE;
 	if (NT < 1) NT = 1;
 	if (NT > 8) NT = 8;
@@ -343,12 +390,14 @@ int main(int argc, char **argv)
 	vrt_set_hang_seconds(20);
 	(void)vrt_tid();
 	g_cancel_sem = dispatch_semaphore_create(0);
-	pthread_barrier_init(&g_bar, NULL, (unsigned)NT + 1);
-	pthread_t th[8];
+	vrt_set_steer(steer);
+	pthread_barrier_init(&g_bar, NULL, (unsigned)NT + 2);
+	pthread_t th[8], sn;
 	for (long i = 0; i < NT; i++) pthread_create(&th[i], NULL, merger, (void *)i);
+	pthread_create(&sn, NULL, sniper, NULL);
 	for (int e = 0; e < g_execs; e++) {
 		vrt_pause(1);
-		g_kind = (int)(vrt_rand() % 3);
+		g_kind = (int)((g_seed + (uint64_t)e) % 3);   /* every kind in every run */
 		g_q = g_target == T_SERIAL ? dispatch_queue_create("verif.source.target", DISPATCH_QUEUE_SERIAL) :
 				g_target == T_CONCURRENT ? dispatch_queue_create("verif.source.target", DISPATCH_QUEUE_CONCURRENT) :
 				dispatch_get_global_queue(DISPATCH_QUEUE_PRIORITY_DEFAULT, 0);
@@ -362,6 +411,7 @@ int main(int argc, char **argv)
 		vrt_register(g_dr, malloc_usable_size(g_dr), 2);
 		atomic_store(&g_nm, 0); atomic_store(&g_nd, 0); atomic_store(&g_inh, 0); atomic_store(&g_items, 0);
 		atomic_store(&g_stop, 0); atomic_store(&g_hbudget, 2 + (int)(vrt_rand() % 4)); atomic_store(&g_done_threads, 0);
+		atomic_store(&g_win_open, 0); atomic_store(&g_snipe_budget, g_nosteer ? 0 : 6 + (int)(vrt_rand() % 8)); atomic_store(&g_sniper_run, 1);
 		g_first_rec = vrt_count();
 		if (e < MAXE) {
 			g_range[e].ds = (uintptr_t)g_ds; g_range[e].ds_end = (uintptr_t)g_ds + malloc_usable_size(g_ds);
@@ -388,6 +438,7 @@ int main(int argc, char **argv)
 			vrt_api("ResCall", g_obj, 0, 0, 0); dispatch_resume(g_ds); vrt_api("ResRet", g_obj, 0, 0, 0);
 		}
 		while (atomic_load(&g_done_threads) < NT) usleep(200);
+		atomic_store(&g_sniper_run, 0);
 		pthread_barrier_wait(&g_bar);
 		atomic_store(&g_stop, 1);
 		check_rest("after the merging threads finished");
@@ -407,6 +458,7 @@ int main(int argc, char **argv)
 		vrt_progress();
 	}
 	for (int i = 0; i < NT; i++) pthread_join(th[i], NULL);
+	pthread_join(sn, NULL);
 	vrt_dump();
 	fprintf(stderr, "records=%zu overflow=%d threads=%d\n", vrt_count(), vrt_overflowed(), vrt_nthreads());
 	return atomic_load(&g_fail) ? 2 : 0;
